@@ -110,6 +110,10 @@ def run_case(case, tid):
             comfortably = True
         except m.RangeError:
             pass
+    if tid % 4 == 1:
+        # the calculator has a history: another rifle fired canted, a zero far beyond reach - nothing of it may reach this zeroing
+        from pbv import scen as _scen
+        info_pre = _scen.prehistory(m, calc)
     stored_before = shot.weapon.zero_elevation
     sb = (float(stored_before.raw_value).hex(), id(stored_before))
     rec = integ.Recorder(keep_integrate=False).install()
@@ -221,6 +225,25 @@ def run_case(case, tid):
             end["observed"] = True
             end["missOK"] = bool(miss <= bound * (1 + 1e-6) + 1e-9)
             info.update({"miss_ft": miss, "bound_ft": bound, "slope_rel": slope_rel})
+            if tid % 5 == 2 and X <= 2400.0:
+                # ... and fired once more asking for a FINE card (rows closer together than the maximum integration step): what is
+                # recorded does not change what is computed, so the trajectory passes the aim point just as close to the sight line
+                # (read off the integration points themselves, interpolated at the aim point's distance)
+                rec4 = integ.Recorder().install()
+                try:
+                    calc.fire(shot, U.Foot(X + 3 * max_step), U.Foot(0.45 * max_step))
+                except m.RangeError:
+                    pass
+                finally:
+                    rec4.remove()
+                its2 = rec4.calls[-1]["iters"] if rec4.calls else []
+                sj = next((j for j, (a2, b2) in enumerate(zip(its2, its2[1:])) if a2["pre_r"].x <= X <= b2["pre_r"].x), None)
+                if sj is not None:
+                    a2, b2 = its2[sj]["pre_r"], its2[sj + 1]["pre_r"]
+                    ratio = (X - a2.x) / max(1e-12, b2.x - a2.x)
+                    miss2 = abs(perp(a2) + (perp(b2) - perp(a2)) * ratio)
+                    info["miss_with_a_fine_card_ft"] = miss2
+                    end["missOK"] = bool(end["missOK"] and miss2 <= bound * (1 + 1e-6) + 1e-9)
     if outcome == "ZeroErr" and last_elev is not None:
         # Is the failure explained by the finder's sampling discontinuity?  The finder reads the trajectory where the loop
         # stopped; when the elevation changes, that point jumps by one step, and the measured error jumps by
@@ -305,6 +328,8 @@ def run(chk: core.Check, replay=None) -> None:
         chk.stratum("look_level" if look < 1 else ("look_mild" if look <= 10 else ("look_steep" if look < 40 else "look_very_steep")))
         if info["end"]["observed"]:
             chk.stratum("miss_observed")
+        if info.get("miss_with_a_fine_card_ft") is not None:
+            chk.stratum("fired_back_with_a_fine_card")
         if case["prev_zero_rad"] != 0.0:
             chk.stratum("previous_zero_nonzero")
         if abs(case["prev_zero_rad"]) >= 0.3 and info["reachable"]:
@@ -339,6 +364,19 @@ def run(chk: core.Check, replay=None) -> None:
         placed += 1
         chk.count(1, ("placed-cap", j))
         chk.stratum("cap_reached_with_error_just_above_accuracy")
+    # ---- stored zeros so far off that the FIRST trial shot (launched with the stored zero) cannot reach the zero distance although the
+    #      target is comfortably within reach along the sight line (found by a seed sweep; repaired in /repo, known_findings.json)
+    for look_, prev_, d_ in ((-5.0, -0.35, 1001.9), (55.0, 1.05, 5.0), (55.0, 0.87, 300.0), (-15.0, -0.6, 500.0)):
+        case = gen_case(rng2, 0, False)
+        case["shot"].update({"look_deg": look_, "mv_fps": 2900.0, "table": "G7", "bc": 0.3, "winds": [], "alt_ft": 0.0, "sight_in": 2.0})
+        case["shot"].pop("powder", None)
+        case.update({"d_yd": d_, "prev_zero_rad": prev_, "cfg": {"max_calc_step_size_feet": 2.0}, "holdover_rad": 0.0015})
+        n += 1
+        ls, info = run_case(case, n)
+        lines += ls
+        infos[n] = info
+        chk.count(1, ("first-trial-short", look_, prev_, d_))
+        chk.stratum("stored_zero_whose_first_trial_cannot_reach_the_zero_distance")
     # ---- a calculator with a history: after a zero on one sight line, a zero on a very different one (steep downhill, then long and
     #      level from a low station; steep uphill, then downhill; twice the same) - each second zeroing gives exactly what a fresh
     #      calculator gives, and in particular does not fail
@@ -371,7 +409,7 @@ def run(chk: core.Check, replay=None) -> None:
     chk.sample({k: v for k, v in infos[1].items()})
     chk.sample({"trace_lines": lines[:4]})
     chk.require_strata(["zero_after_a_zero_on_another_sight_line", "unreachable_below_the_altitude_floor", "reachable", "unreachable", "look_level", "look_mild", "look_steep",
-                        "miss_observed", "cap_reached_with_error_just_above_accuracy", "error_fields_compared_with_the_logged_search", "previous_zero_nonzero", "previous_zero_far_from_the_new_one", "tangent_based_preferred_angle_on_inclined_line", "small_iteration_cap_ZeroErr", "wind_changes_inside_zero_distance", "steep_and_long"])
+                        "miss_observed", "stored_zero_whose_first_trial_cannot_reach_the_zero_distance", "fired_back_with_a_fine_card", "cap_reached_with_error_just_above_accuracy", "error_fields_compared_with_the_logged_search", "previous_zero_nonzero", "previous_zero_far_from_the_new_one", "tangent_based_preferred_angle_on_inclined_line", "small_iteration_cap_ZeroErr", "wind_changes_inside_zero_distance", "steep_and_long"])
     chk.exhaustive = False
     chk.rule.append("seeded un-canted shots (G1/G7/.. tables, 600-4000 fps, sight heights -2..6 in, look angles 0, +-5..+-59 deg, 0-2 "
                     "winds, previously stored zero 0 / small / large / negative) x zero distances 10 yd - 1500 yd, plus unreachable "
